@@ -71,7 +71,12 @@ func (p Point) CRC() uint32 {
 	h.Write([]byte(p.Type))
 	h.Write([]byte(p.Key))
 	h.Write([]byte(p.Text))
-	binary.LittleEndian.PutUint64(d, math.Float64bits(p.Value))
+	v := p.Value
+	if v == 0 {
+		// -0.0 and 0.0 are one value (and the database stores both as 0)
+		v = 0
+	}
+	binary.LittleEndian.PutUint64(d, math.Float64bits(v))
 	h.Write(d)
 
 	return h.Sum32()
